@@ -79,3 +79,16 @@ _class_obligations = obligations
 
 def obligations():  # noqa: F811
     return _class_obligations() + _examples()
+
+
+def fornext_closers():
+    """FOR/NEXT closers in the right order: shared with C02 (the bare-NEXT patcher's stack invariant)"""
+    from tx import p_c02
+    return [dict(o, id="closers/" + o["id"]) for o in p_c02.next_patcher()]
+
+
+_c07_all = obligations
+
+
+def obligations():  # noqa: F811
+    return _c07_all() + fornext_closers()
